@@ -214,6 +214,14 @@ class Source:
             attrs.insert(0, mm.group(1))
             k = mm.start()
         i = m.end()
+        if kind == 'type':
+            depth = 0
+            while not (self.masked[i] == ';' and depth == 0):
+                if self.masked[i] in '([{<':
+                    depth += 1
+                elif self.masked[i] in ')]}>':
+                    depth -= 1
+                i += 1
         while self.masked[i] not in '{;(':
             i += 1
         if self.masked[i] == ';':
@@ -606,10 +614,18 @@ def apply_text_rules(text, log, where, opts):
     text = rw_R14_closure_underscore(text, log, where)
     text = rw_R1_for_array(text, log, where)
     for before, after in opts.get('subst', []):
-        if before not in text:
+        rx = re.compile(ws_regex(before))
+        if not rx.search(text):
             raise ExtractError('substitution anchor lost in %s: %r' % (where, before))
-        log.append({'rule': 'Rsub', 'where': where, 'before': before, 'after': after})
-        text = text.replace(before, after)
+        n = len(rx.findall(text))
+        log.append({'rule': 'Rsub', 'where': where, 'before': before, 'after': after, 'count': n})
+        text = rx.sub(lambda m: after, text)
+    for before, after in opts.get('subst_opt', []):
+        rx = re.compile(ws_regex(before))
+        n = len(rx.findall(text))
+        if n:
+            log.append({'rule': 'Rsub', 'where': where, 'before': before, 'after': after, 'count': n})
+            text = rx.sub(lambda m: after, text)
     return text
 
 
@@ -736,6 +752,12 @@ class Unit:
                 text = re.sub(r'\((\s*)(?!pub\b)', r'(\1pub ', text, count=1)
         if not re.match(r'pub\b', text):
             text = 'pub ' + text
+        for before, after in self.subst_rules.get('type:' + name, []):
+            rx = re.compile(ws_regex(before))
+            if not rx.search(text):
+                raise ExtractError('type substitution anchor lost in %s: %r' % (name, before))
+            self.log.append({'rule': 'Rtype', 'where': name, 'before': before, 'after': after})
+            text = rx.sub(lambda m: after, text)
         if 'as' in opts:
             text = re.sub(r'\b' + re.escape(name) + r'\b', opts['as'], text, count=1)
         derive = opts.get('derive', '')
@@ -779,6 +801,13 @@ class Unit:
         where = '%s::%s' % (scope if scope not in ('', '-', 'top') else rel, name)
         original = sig + ' ' + fbody
         # ---- signature adjustments
+        for before, after in self.subst_rules.get('sig:' + name, []) + self.subst_rules.get('sig:*', []):
+            rx = re.compile(ws_regex(before))
+            if rx.search(sig):
+                self.log.append({'rule': 'Rsig', 'where': where, 'before': before, 'after': after})
+                sig = rx.sub(lambda m: after, sig)
+            elif ('sig:' + name) in self.subst_rules and (before, after) in self.subst_rules['sig:' + name]:
+                raise ExtractError('signature substitution anchor lost in %s: %r' % (where, before))
         sig0 = sig
         sig = re.sub(r'\bconst\s+(unsafe\s+)?fn\b', r'\1fn', sig)
         if sig != sig0:
@@ -799,7 +828,8 @@ class Unit:
         fbody = strip_docs(fbody, self.log, where)
         sig, fbody = rw_R15_mut_self(sig, fbody, self.log, where)
         sig, fbody = rw_mut_param(sig, fbody, self.log, where)
-        o2 = {'subst': self.subst_rules.get(name, []) + self.subst_rules.get(where, [])}
+        o2 = {'subst': self.subst_rules.get(name, []) + self.subst_rules.get(where, []),
+              'subst_opt': self.subst_rules.get('*', [])}
         fbody = apply_text_rules(fbody, self.log, where, o2)
         if self.statics:
             fbody = rw_R13_oncelock(fbody, self.log, where, self.statics)
